@@ -24,3 +24,14 @@ func (s *Service) VerifPublishNodes(pl *pipeline.Instance, nodes []stream.Node) 
 func (s *Service) VerifBuildDLQHandlerNode(ctx context.Context, pl *pipeline.Instance) (*stream.DLQHandlerNode, error) {
 	return s.buildDLQHandlerNode(ctx, pl)
 }
+
+// VerifBuildNodes runs the real buildRunnablePipeline on pl and returns the
+// nodes of the runnable pipeline, in the order runPipeline would start them.
+// Nothing is started or published.
+func (s *Service) VerifBuildNodes(ctx context.Context, pl *pipeline.Instance) ([]stream.Node, error) {
+	rp, err := s.buildRunnablePipeline(ctx, pl)
+	if err != nil {
+		return nil, err
+	}
+	return rp.n, nil
+}
